@@ -19,6 +19,7 @@ import (
 	"bufio"
 	"context"
 	"encoding/json"
+	"errors"
 	"fmt"
 	"io"
 	"net"
@@ -233,6 +234,8 @@ type fakeTunnel struct {
 	next       int
 	calls      map[string]int
 	fail       func(method string) error
+	// the first GenerateHostname takes effect at the gateway but its answer is lost
+	lostFirstGenerate bool
 }
 
 func (f *fakeTunnel) enter(m string) error {
@@ -263,6 +266,9 @@ func (f *fakeTunnel) GenerateHostname(context.Context, *protocol.GenerateHostnam
 	f.next++
 	h := fmt.Sprintf("gen%d", f.next)
 	f.registered = append(f.registered, h)
+	if f.lostFirstGenerate && f.next == 1 {
+		return nil, errors.New("scripted: answer lost")
+	}
 	return &protocol.GenerateHostnameResponse{Hostname: h}, nil
 }
 func (f *fakeTunnel) PublishTunnel(_ context.Context, r *protocol.PublishTunnelRequest) (*protocol.PublishTunnelResponse, error) {
